@@ -107,16 +107,17 @@ def build(shape, eoe):
     elif shape == "subcommands":
         p.add_argument("--top", type=int, default=0)
         sc = p.add_subcommands(required=True)
-        a = ArgumentParser(exit_on_error=eoe)
+        # the sub-parsers are created with the *opposite* setting on purpose: attaching them must make them follow their parent
+        a = ArgumentParser(exit_on_error=not eoe)
         a.add_argument("--cfga", action="config")
         a.add_argument("--x", type=int, default=1)
         a.add_argument("--m", type=F.Base)
         sc.add_subcommand("a", a)
-        b = ArgumentParser(exit_on_error=eoe)
+        b = ArgumentParser(exit_on_error=not eoe)
         b.add_argument("--y", type=List[int])
         sc.add_subcommand("b", b)  # (levels must be attached in level order)
         sc2 = b.add_subcommands(required=False, dest="sub2")
-        c = ArgumentParser(exit_on_error=eoe)
+        c = ArgumentParser()
         c.add_argument("--cfgc", action="config")
         c.add_argument("--z", type=Dict[str, int])
         sc2.add_subcommand("c", c)
